@@ -77,9 +77,11 @@ Plans(i, n) == {Full(i, n, FALSE), Full(i, n, TRUE) \o <<EOF>>}
 Owner(c) == {i \in Calls : conn[i] = c /\ pc[i] \in {"reading", "streaming"}}
 
 (* AcquireConn + write request; the server plans its answer.  From "reterr" this is the retry   *)
-(* loop of Do transmitting again, from "failed" the caller repeating the call.                   *)
+(* loop of Do transmitting again, from "failed" the caller repeating the call, from "retok" the  *)
+(* next hop of a redirect (DoRedirects, Get/Post helpers): the same Response object is reused,   *)
+(* which lets go of the previous hop's body stream.                                              *)
 Send(i, c, m, plan) ==
-  /\ pc[i] \in {"start", "reterr", "failed"} /\ sends[i] < MaxSends
+  /\ pc[i] \in {"start", "reterr", "failed", "retok"} /\ sends[i] < MaxSends
   /\ cst[c] \in {"idle", "none"}
   /\ cst' = [cst EXCEPT ![c] = "busy"]
   /\ srvq' = [srvq EXCEPT ![c] = @ \o plan]
@@ -134,7 +136,10 @@ HeadDone(i) ==
   /\ UNCHANGED <<cst, wire, srvq, conn, mode, need, rclose, got, sends>>
 
 AtBoundary(i) == need[i] = 0
-Complete(i) == pc[i] = "streaming" \/ (mode[i] = "buffered" /\ need[i] = 0)
+\* the attempt has delivered a response: an open body stream (also one whose Do returned inside a
+\* redirect-following helper, before the caller saw it), or a buffered response read to its end
+StreamOpen(i) == pc[i] = "streaming" \/ (pc[i] = "reading" /\ mode[i] = "streamed" /\ need[i] >= 0)
+Complete(i) == StreamOpen(i) \/ (mode[i] = "buffered" /\ need[i] = 0)
 
 (* hc.ReleaseConn.  Guard = the design rule. *)
 RelConn(i) ==
@@ -149,8 +154,11 @@ RelConn(i) ==
 ClsConn(i) ==
   /\ pc[i] \in {"reading", "streaming"}
   /\ cst' = [cst EXCEPT ![conn[i]] = "closed"]
-  /\ pc' = [pc EXCEPT ![i] = IF @ = "streaming" THEN "done"
-                             ELSE IF mode[i] = "buffered" /\ need[i] = 0 THEN "retok" ELSE "reterr"]
+  /\ \E v \in {"retok", "reterr"} :
+        /\ pc' = [pc EXCEPT ![i] = IF @ = "streaming" THEN "done"
+                                   ELSE IF mode[i] = "buffered" /\ need[i] = 0 THEN "retok"
+                                   ELSE IF StreamOpen(i) THEN v   \* stream let go by the next hop, or a read error
+                                   ELSE "reterr"]
   /\ UNCHANGED <<wire, srvq, conn, mode, need, rclose, got, res, sends>>
 
 Return(i) ==
@@ -166,6 +174,14 @@ PoolIdle(c) ==
   /\ cst' = [cst EXCEPT ![c] = "idle"]
   /\ UNCHANGED <<wire, srvq, pc, conn, mode, need, rclose, got, res, sends>>
 
+\* a redirect-following call got a complete redirect response, but its next hop fails before anything is
+\* sent (no free connection, deadline, bad Location): the call returns that error
+HopFail(i) ==
+  /\ pc[i] = "retok"
+  /\ pc' = [pc EXCEPT ![i] = "failed"]
+  /\ res' = [res EXCEPT ![i] = "err"]
+  /\ UNCHANGED <<cst, wire, srvq, conn, mode, need, rclose, got, sends>>
+
 CloseIdle(c) ==
   /\ cst[c] = "idle"
   /\ cst' = [cst EXCEPT ![c] = "closed"]
@@ -174,7 +190,7 @@ CloseIdle(c) ==
 Next ==
   \/ \E i \in Calls : \/ \E c \in Conns, m \in {"buffered", "streamed"} :
                             \E plan \in Plans(i, BodyUnits) : Send(i, c, m, plan)
-                      \/ Pull(i) \/ HeadDone(i) \/ RelConn(i) \/ ClsConn(i) \/ Return(i)
+                      \/ Pull(i) \/ HeadDone(i) \/ RelConn(i) \/ ClsConn(i) \/ Return(i) \/ HopFail(i)
   \/ \E c \in Conns : ServerPush(c) \/ ServerClose(c) \/ CloseIdle(c)
 
 Spec == Init /\ [][Next]_vars
